@@ -317,7 +317,8 @@ func VerifC18_BasicUpload() {
 	content := "hello, object\n"
 	verifFSWrite(root+"/object.bin", content, 0644)
 	href := "https://storage.example.com/upload/abc"
-	names := [][]string{{}, {"Authorization"}, {"Content-Type"}, {"Content-Type", "X-Amz-Meta"}, {"Transfer-Encoding"}}[verifChoose("action.headers", 5)]
+	// (servers spell header names as they like: lower case is as good as canonical case)
+	names := [][]string{{}, {"Authorization"}, {"Content-Type"}, {"Content-Type", "X-Amz-Meta"}, {"Transfer-Encoding"}, {"content-type"}, {"transfer-encoding", "x-amz-meta"}}[verifChoose("action.headers", 7)]
 	rel := &Action{Href: href}
 	var vals []string
 	if len(names) > 0 {
@@ -327,7 +328,7 @@ func VerifC18_BasicUpload() {
 		v := verifNondetString("header.value")
 		verifAssume(len(v) >= 1 && len(v) <= 16)
 		verifAssumeAlphabet(v, "azAZ09//--")
-		if n == "Transfer-Encoding" && verifChoose("chunked", 2) == 1 {
+		if http.CanonicalHeaderKey(n) == "Transfer-Encoding" && verifChoose("chunked", 2) == 1 {
 			v = "chunked"
 		}
 		rel.Header[n] = v
@@ -353,10 +354,17 @@ func VerifC18_BasicUpload() {
 	offeredCT := ""
 	for k, n := range names {
 		verifAssert(req.Header.Get(n) == vals[k], "every offered header is sent with the offered value")
-		if n == "Content-Type" {
+		if http.CanonicalHeaderKey(n) == "Content-Type" {
 			offeredCT = vals[k]
 		}
 	}
+	nCT := 0
+	for k, vs := range req.Header {
+		if http.CanonicalHeaderKey(k) == "Content-Type" {
+			nCT += len(vs)
+		}
+	}
+	verifAssert(nCT == 1, "the request carries exactly one Content-Type, however the offered header name is spelled")
 	if offeredCT == "" {
 		verifAssert(req.Header.Get("Content-Type") != "", "a Content-Type is added when the action offers none")
 		_, off1 := gitcfg["lfs.contenttype"]
